@@ -125,6 +125,34 @@ func runC18(c *Ctx) {
 			}
 		}
 		c.Check(nList >= 2, "C18.4-marked-revisions-listed", "ListRevisions: List calls", lr.Decl.Pos(), "selector List and marker List", "the revisions carrying the upgrade marker are not listed")
+		// both listings happen on every successful call: a return reached without one of them carries an error. (A marker
+		// listing that is made only when the selector listing is empty misses the marked revisions that are left after
+		// an interrupted label sync, or beside a foreign revision that matches the selector.)
+		if len(lr.Decl.Body.List) > 0 {
+			k := 0
+			for _, s := range c.sitesOf(lr) {
+				if s.Resource != "controllerrevisions" || s.Verb != "List" {
+					continue
+				}
+				k++
+				aU := fn.FromUntil(lr.Decl.Body.List[0], gf.TrueState(), s.Top)
+				good := true
+				ownNodes(lr.Decl.Body, func(x ast.Node) {
+					ret, ok := x.(*ast.ReturnStmt)
+					if !ok || len(ret.Results) == 0 {
+						return
+					}
+					st := aU.StateBefore(ret)
+					if !st.Reachable() {
+						return
+					}
+					if g, _ := st.Implies(gf.FNotNil(fn.Term(ret.Results[len(ret.Results)-1]))); !g {
+						good = false
+					}
+				})
+				c.Check(good, "C18.4-both-listings-on-every-call", fmt.Sprintf("ListRevisions: List #%d", k), s.Call.Pos(), "no successful return is reachable without this listing", "a successful return is reachable without this listing having been made: revisions only it would find are missing from the history")
+			}
+		}
 	}
 	// (4) sync before adopt, sync copies template labels and updates
 	if ao := c.Func(load.CtrlPkg, "StatefulSetController.adoptOrphanRevisions"); ao != nil {
@@ -220,6 +248,28 @@ func runC18(c *Ctx) {
 		}
 	}
 	c.listingKeepsEveryRevision()
+	c.convertedUnmodified("C18.1")
+	// the control's adoption patches every revision it is handed: its loop is left early only with an error
+	if m := ifaceMethod(c.P, load.CtrlPkg, "StatefulSetControlInterface", "AdoptOrphanRevisions"); m != nil {
+		nA := 0
+		for _, impl := range c.E.Sum.Impls[m] {
+			ifi := c.P.FuncInfoOf(impl)
+			if ifi == nil || ifi.Pkg.PkgPath != load.CtrlPkg {
+				continue
+			}
+			ifn, ian := c.Analysis(ifi)
+			for _, bd := range ifn.Bodies()[:1] {
+				for _, s := range bd.List {
+					switch s.(type) {
+					case *ast.RangeStmt, *ast.ForStmt:
+						nA++
+						c.loopLeftOnlyWithError(ifn, ian, s, "C18.4-every-handed-in-orphan-is-patched", ifi.Obj.Name()+": adoption loop")
+					}
+				}
+			}
+		}
+		c.Floor("C18.4-adoption-loops", nA, 1)
+	}
 	if sl := c.Func(load.CtrlPkg, "syncLabels"); sl != nil {
 		fn, _ := c.Analysis(sl)
 		info := sl.Pkg.TypesInfo
